@@ -22,7 +22,7 @@ class Rejection:
 
 
 def validate(module: str, cfg: str, traces: list[list[dict]], *, extra_files=None,
-             timeout=900, chunk=4000, deque=False):
+             timeout=900, chunk=4000, deque=False, on_output=None):
     """Returns (rejections, stats) where stats has states/transitions summed over chunks.
     A trace spec invariant violation is returned as a rejection of the trace whose tid
     appears in the error trace."""
@@ -40,6 +40,8 @@ def validate(module: str, cfg: str, traces: list[list[dict]], *, extra_files=Non
             r = tlc.run(module, cfg, workdir=wd, extra_files=extra_files, workers=1,
                         env={"TRACE_FILE": tf}, timeout=timeout,
                         java_opts="-Dtlc2.tool.queue.IStateQueue=StateDeque" if deque else None)
+            if on_output:
+                on_output(r.stdout, base)
             stats["distinct"] += r.distinct
             stats["generated"] += r.generated
             stats["wall_s"] += r.wall_s
@@ -60,7 +62,7 @@ def validate(module: str, cfg: str, traces: list[list[dict]], *, extra_files=Non
                 rest = [t for k, t in enumerate(part) if k != tid - 1]
                 idx = [base + k for k in range(len(part)) if k != tid - 1]
                 if rest:
-                    rj, st2 = validate(module, cfg, rest, extra_files=extra_files, timeout=timeout, chunk=chunk, deque=deque)
+                    rj, st2 = validate(module, cfg, rest, extra_files=extra_files, timeout=timeout, chunk=chunk, deque=deque)  # (no on_output for the re-run)
                     for x in rj:
                         x.index = idx[x.index]
                     rejections.extend(rj)
